@@ -1,9 +1,11 @@
 (* Classification of files by checkFiles (C17): every file lands in exactly one of Valid /
    Omitted / Invalid.  Exported: errs, vpaths, same_lists, step_kind, step_cases, inv,
    step_inv, pass2_inv, pass1_inv, check_files_state_inv, listed, str_eq_dec,
+   classification_total_exclusive_nofuel, pre_class_none, step_fuel, check_files_no_fuel,
    classification_total_exclusive. *)
 From Verif.Base Require Import Bytes PathClean.
-From Verif.Zip Require Import Check.
+From Verif.Module Require Import Path PathProofs.
+From Verif.Zip Require Import Check ProofsPath ProofsColl.
 From Coq Require Import Sorting.Permutation.
 
 
@@ -268,7 +270,7 @@ Definition listed (cf : checked) : list str :=
 
 Definition str_eq_dec : forall a b : str, {a = b} + {a <> b} := list_eq_dec Z.eq_dec.
 
-Theorem classification_total_exclusive ge files :
+Theorem classification_total_exclusive_nofuel ge files :
   NoDup (map f_path files) ->
   c_fuel (check_files_with ge files) = false ->
   (forall p, In p (map f_path files) ->
@@ -292,4 +294,78 @@ Proof.
     + unfold vpaths in Hp. apply in_map_iff in Hp. destruct Hp as [f [<- Hf]].
       apply in_map. apply (inv_valid _ _ _ I f Hf).
     + destruct (inv_err _ _ _ I p Hp) as [H|[g (Hg & <- & _)]]; [exact H|now apply in_map].
+Qed.
+
+
+Lemma ok_b_none r : ok_b r = true -> r = None.
+Proof. destruct r; [discriminate|reflexivity]. Qed.
+
+(* what a path that reaches Lstat has passed *)
+Lemma pre_class_none ge have p :
+  pre_class ge have p = None ->
+  path_clean p = p /\ path_is_abs p = false /\ is_vendored_package p ge = false /\
+  in_submodule have p = false /\ p <> B ".hg_archival.txt" /\ check_file_path p = None /\
+  (str_eqb (ascii_lower p) go_mod = true -> p = go_mod).
+Proof.
+  unfold pre_class.
+  destruct (str_eqb_spec p (path_clean p)) as [E|]; cbn [negb]; [|discriminate].
+  destruct (path_is_abs p); [discriminate|].
+  destruct (is_vendored_package p ge); [discriminate|].
+  destruct (in_submodule have p); [discriminate|].
+  destruct (str_eqb_spec p (B ".hg_archival.txt")) as [|Hh]; [discriminate|].
+  destruct (ok_b (check_file_path p)) eqn:Ec; cbn [negb]; [|discriminate].
+  apply ok_b_none in Ec.
+  destruct (str_eqb (ascii_lower p) go_mod) eqn:El; cbn [andb].
+  - destruct (str_eqb_spec p go_mod) as [Eg|]; cbn [negb]; [|discriminate].
+    intros _. repeat split; auto.
+  - intros _. repeat split; auto. discriminate.
+Qed.
+
+Lemma add_error_fuel st p om e : s_fuel (add_error st p om e) = s_fuel st.
+Proof. destruct (add_error_spec st p om e) as [[_ ->]|(_ & _ & _ & H & _)]; [reflexivity|exact H]. Qed.
+
+Lemma account_size_fuel st sz : s_fuel (account_size st sz) = s_fuel st.
+Proof. unfold account_size. destruct (_ && _); reflexivity. Qed.
+
+Lemma step_fuel ge have st f : s_fuel (step ge have st f) = s_fuel st.
+Proof.
+  unfold step. destruct (pre_class ge have (f_path f)) as [[om e]|] eqn:Ep; [apply add_error_fuel|].
+  destruct (f_lstat_ok f); cbn [negb]; [|apply add_error_fuel].
+  destruct (pre_class_none _ _ _ Ep) as (_ & _ & _ & _ & _ & Hc & _).
+  pose proof (cc_check_no_fuel (s_coll st) (f_path f) (is_dir_mode (f_mode f)) Hc) as Hnf.
+  destruct (cc_check _ _ _ _) as [cc' r]. cbn [snd] in Hnf.
+  destruct r as [|e|]; [|rewrite add_error_fuel; reflexivity|contradiction].
+  destruct (f_mode f); try (rewrite add_error_fuel; reflexivity).
+  destruct (_ && _); [rewrite add_error_fuel, account_size_fuel; reflexivity|].
+  destruct (_ && _); [rewrite add_error_fuel, account_size_fuel; reflexivity|].
+  cbn. rewrite account_size_fuel. reflexivity.
+Qed.
+
+Lemma pass2_fuel ge have files : forall st, s_fuel (pass2 ge have files st) = s_fuel st.
+Proof.
+  induction files as [|f files IH]; intros st; [reflexivity|].
+  cbn [pass2 fold_left]. fold (pass2 ge have files (step ge have st f)).
+  rewrite IH. apply step_fuel.
+Qed.
+
+Lemma pass1_fuel files : forall st, s_fuel (pass1_errs files st) = s_fuel st.
+Proof.
+  induction files as [|f files IH]; intros st; [reflexivity|].
+  unfold pass1_errs in *. cbn [fold_left]. rewrite IH.
+  destruct (_ && _); [apply add_error_fuel|reflexivity].
+Qed.
+
+Theorem check_files_no_fuel ge files : c_fuel (check_files_with ge files) = false.
+Proof.
+  unfold check_files_with, checked_of, check_files_state. cbn [c_fuel].
+  rewrite pass2_fuel, pass1_fuel. reflexivity.
+Qed.
+
+Theorem classification_total_exclusive ge files :
+  NoDup (map f_path files) ->
+  (forall p, In p (map f_path files) ->
+             count_occ str_eq_dec (listed (check_files_with ge files)) p = 1%nat) /\
+  (forall p, In p (listed (check_files_with ge files)) -> In p (map f_path files)).
+Proof.
+  intros H. apply classification_total_exclusive_nofuel; [exact H|apply check_files_no_fuel].
 Qed.
